@@ -136,12 +136,28 @@ func runTraitTol(sc TraitTolScenario) (*verdict, *traitTolResult) {
 	var events []int
 	marker := make(chan struct{}, 1)
 	subscribed := false
-	subscribe := func() {
+	seeded := make(chan struct{})
+	limit := 3 * time.Second
+	if traitTolFailures >= 3 {
+		limit = 30 * time.Millisecond
+	}
+	// subscribe returns once the seed has arrived: PullFanSpeed calls Value.Pull from its own goroutine, so the return
+	// of the trait method alone does not say that the subscription exists
+	subscribe := func() bool {
 		subscribed = true
 		ch := m.pull(ctx, resource.WithBackpressure(!sc.Lossy))
 		go func() {
+			first := true
 			for x := range ch {
 				h := units(x)
+				if first {
+					first = false
+					mu.Lock()
+					events = append(events, h)
+					mu.Unlock()
+					close(seeded)
+					continue
+				}
 				if h >= traitTolMarker/2 {
 					select {
 					case marker <- struct{}{}:
@@ -154,25 +170,31 @@ func runTraitTol(sc TraitTolScenario) (*verdict, *traitTolResult) {
 				mu.Unlock()
 			}
 		}()
+		select {
+		case <-seeded:
+			return true
+		case <-time.After(limit):
+			return false
+		}
 	}
-	if sc.Late == 0 {
-		subscribe()
+	site := "C03/trait/" + sc.Model + "/tolerance-default"
+	noSeed := func() (*verdict, *traitTolResult) {
+		traitTolFailures++
+		return &verdict{site + "/seed-not-delivered", "the subscriber of a model with an initial value received nothing", "the current value", "none"}, nil
+	}
+	if sc.Late == 0 && !subscribe() {
+		return noSeed()
 	}
 	for n, h := range sc.Ops {
 		m.set(h)
-		if !subscribed && sc.Late == n+1 {
-			subscribe()
+		if !subscribed && sc.Late == n+1 && !subscribe() {
+			return noSeed()
 		}
 	}
-	if !subscribed {
-		subscribe()
+	if !subscribed && !subscribe() {
+		return noSeed()
 	}
 	got := units(m.get())
-	limit := 3 * time.Second
-	if traitTolFailures >= 3 {
-		limit = 30 * time.Millisecond
-	}
-	site := "C03/trait/" + sc.Model + "/tolerance-default"
 	last := func() (int, bool) {
 		mu.Lock()
 		defer mu.Unlock()
